@@ -667,7 +667,18 @@ func CheckTunnel(c *Ctx, t *Tun, mc ModelCfg, prop string) *TunVerdict {
 			}
 		case KTunnelAuth:
 			if state != stCreated {
+				before := ri
 				expectErr(i, pk, codec.PktTunnelAuthResp, false, 0, "C01")
+				if c.S.Viol == nil && ri > before && mc.CheckRedir && ctrl[before].Pkt.Type == codec.PktTunnelAuthResp {
+					// a refusal is still a tunnel-authorization response: what it says about
+					// redirection and the idle timeout is the configuration
+					r := ctrl[before]
+					if r.Pkt.Fields&0x1 != 0 && r.Pkt.Redir != mc.Redir {
+						failf(c, "C16", "redir-flags", "%s: refused tunnel-auth response carries redirection flags %#x, configuration means %#x", name, r.Pkt.Redir, mc.Redir)
+					} else if r.Pkt.Fields&0x2 != 0 && r.Pkt.Idle != mc.Idle {
+						failf(c, "C16", "idle-timeout", "%s: refused tunnel-auth response carries idle timeout %d, configuration means %d", name, r.Pkt.Idle, mc.Idle)
+					}
+				}
 				continue
 			}
 			if r, ok := expectOK(i, pk, codec.PktTunnelAuthResp); ok {
